@@ -199,7 +199,7 @@ func runC11(c *Ctx) {
 		}
 	}
 	// (2) trees
-	leaves := []*PE{leafNum(2), leafNum(3), leafStr("a"), leafBool(true), leafVar("match", TStr)}
+	leaves := []*PE{leafNum(2), leafNum(3), leafStr("a"), leafBool(true), leafVar("match", TStr), leafStr("")}
 	maxOps := 3
 	var trees func(n int) []*PE
 	memo := map[int][]*PE{}
@@ -258,7 +258,7 @@ func runC11(c *Ctx) {
 			}
 			if n == 3 {
 				// depth 3: trees over the leaves {2,'a',true} (thorough: also 3) to keep the product affordable
-				if strings.Contains(e.renderFull(), "match") || (c.Quick() && strings.Contains(e.renderFull(), "3")) {
+				if strings.Contains(e.renderFull(), "match") || strings.Contains(e.renderFull(), "''") || (c.Quick() && strings.Contains(e.renderFull(), "3")) {
 					continue
 				}
 			}
